@@ -33,6 +33,7 @@ from oracle_exact import PointSpec
 from C09 import solve_certified
 
 PROPERTIES_FILE = "Properties_C10"
+TRANSLATORS = ["glam.py"]      # the index arithmetic of glam.c that FitModel transcribes must be present in the recognised form
 ASSUMPTIONS = [
     "nnls_normal_block3 is represented by NnlsModel.block3 (C11): x >= 0 on every exit is C11_block3_nonneg; here the real solver's output is checked >= 0 exactly on every captured system",
     "the IEEE theorem (C10_cumsum_monotone_ieee) is about Flocq's Bplus on binary32 with round-to-nearest-even; that gcc's `float += float` (SSE addss, FLT_EVAL_METHOD 0) is that operation is assumed; the extracted model is executed with binary64 additions re-rounded to binary32 (innocuous double rounding for one addition, 53 >= 2*24+2) and compared bitwise with the real coefficients",
